@@ -30,11 +30,15 @@ func (r *Reader) readInfe(b *box) (err error) {
 	}
 	offset := b.offset + int(b.size) - b.remain
 
-	for i := 0; i < len(buf); {
+	for i := 0; i+12 <= len(buf); {
 		infeFastHeaderSize := 21
 
 		var contentType imagetype.ImageType
 		size := int(bmffEndian.Uint32(buf[i : i+4]))
+		if size < 12 || size > len(buf)-i {
+			// entry is shorter than a FullBox header or overruns the iinf box
+			return errors.Wrap(ErrBufLength, "readInfe")
+		}
 		boxType := boxTypeFromBuf(buf[i+4 : i+8])
 		flags := flags(bmffEndian.Uint32(buf[i+8 : i+12]))
 
@@ -51,6 +55,11 @@ func (r *Reader) readInfe(b *box) (err error) {
 			continue
 		}
 
+		if size < infeFastHeaderSize {
+			// too short to hold an item type
+			i += size
+			continue
+		}
 		itemID := itemID(bmffEndian.Uint16(buf[i+12 : i+14]))
 		itemType := itemTypeFromBuf(buf[i+16 : i+20])
 		// expect whitespace
@@ -62,7 +71,9 @@ func (r *Reader) readInfe(b *box) (err error) {
 		}
 		switch itemType {
 		case itemTypeMime:
-			contentType = imagetype.FromString(string(buf[i+infeFastHeaderSize : i+size-1]))
+			if i+infeFastHeaderSize <= i+size-1 {
+				contentType = imagetype.FromString(string(buf[i+infeFastHeaderSize : i+size-1]))
+			}
 			r.heic.xml.id = itemID
 		case itemTypeExif:
 			r.heic.exif.id = itemID
